@@ -95,17 +95,22 @@ pub trait StatusUpdater {
 
 // ---------------------------------------------------------------- backup.rs: string/regex/ReadDir code stays TRUSTED
 /// has_backup: scans the directory of `file` for `<name>.~N~` siblings (regex + ReadDir; out of Verus' reach)
+/// whether the directory of `k` holds a sibling `<name>.~N~` (what has_backup is meant to compute; the bounded check compares the code with it)
+pub uninterp spec fn has_numbered_backup(ps: Map<PathKey, Node>, k: PathKey) -> bool;
 #[verifier::external_body]
 pub fn has_backup(file: &Path, Tracked(w): Tracked<&mut World>) -> (r: Result<bool>)
     ensures fr_ro(*old(w), *final(w)), final(w).faults == old(w).faults + (if r is Err { 1nat } else { 0 }),
+        r is Ok ==> r->Ok_0 == has_numbered_backup(old(w).paths, file.key()),
 { unimplemented!() }
 
 /// get_backup_path: ASSUMED to return a sibling name that does not exist yet and differs from `file`
 /// (reading the code: false for non-UTF-8 names, see DESIGN.md §5 C09; this machinery cannot decide it)
+/// `b` is a numbered-backup name `<k>.~N~` of the path `k` (what get_backup_path is meant to build; compared with the code by the bounded check)
+pub uninterp spec fn backup_name_of(b: PathKey, k: PathKey) -> bool;
 #[verifier::external_body]
 pub fn get_backup_path(file: &Path, Tracked(w): Tracked<&mut World>) -> (r: Result<PathBuf>)
     ensures fr_ro(*old(w), *final(w)), final(w).faults == old(w).faults + (if r is Err { 1nat } else { 0 }),
-        r is Ok ==> !old(w).paths.contains_key(r->Ok_0.key()) && r->Ok_0.key() != file.key(),
+        r is Ok ==> !old(w).paths.contains_key(r->Ok_0.key()) && r->Ok_0.key() != file.key() && backup_name_of(r->Ok_0.key(), file.key()),
 { unimplemented!() }
 
 // ---------------------------------------------------------------- spec vocabulary for the copy handle
